@@ -318,10 +318,12 @@ def r16_4(prog, rep):
             if nd.get("k") == "idx" and lv(strip_casts(nd["b"])) == "res":
                 ix = strip_casts(nd["i"])
                 names = {r_["n"] for r_ in walk(ix) if r_.get("k") == "ref"}
-                if {"nu_y", "y"} <= names:
+                pars = {p_["n"] for p_ in sh.params}
+                yp, yl = sorted(names & pars), sorted(names - pars)
+                if len(yp) == 1 and len(yl) == 1:       # the year the caller expands (a parameter) and the year the walk has carried into (a local)
                     m = {}
                     for off in (-1, 0, 1):
-                        m[off] = eval_in({"nu_y": 2000 + off, "y": 2000}, ix, sh)
+                        m[off] = eval_in({yl[0]: 2000 + off, yp[0]: 2000}, ix, sh)
                     wslot = m
     if not wslot or None in wslot.values():
         raise AnalysisBroken("R16.4: cannot read the slot mapping of shift()")
